@@ -32,8 +32,8 @@ def scenarios(tier, seed):
         out.append(scenario("%s-faw" % b, b, faw, seed * 5 + 2, tech=dict(tREFI=2000, tRRD=[4, 2.5]), speed=dict(tFAW=[None, 50])))
     # the schedule named in the property: a row opened just before the refresh request. A port issues one row-miss command every
     # (tREFI - 3) cycles, so the distance between its ACT and the refresher's precharge-all slides through every offset.
-    for b, refi_ns, clk in ([("SDR166", 1200, 166000), ("DDR3_200", 1000, 200000)] if tier == "quick" else
-                            [("SDR", 1500, 100000), ("SDR166", 1200, 166000), ("DDR", 1500, 100000), ("DDR3", 1500, 100000), ("DDR3_200", 1000, 200000), ("DDR4", 1200, 150000)]):
+    for b, refi_ns, clk in ([("SDR166", 1200, 166000), ("DDR3_200", 1000, 200000), ("DDR4_300", 800, 300000)] if tier == "quick" else
+                            [("SDR", 1500, 100000), ("SDR166", 1200, 166000), ("DDR", 1500, 100000), ("DDR3", 1500, 100000), ("DDR3_200", 1000, 200000), ("DDR4", 1200, 150000), ("DDR4_300", 800, 300000)]):
         cyc = int(refi_ns * clk / 1e6)
         out.append(scenario("%s-refresh-race" % b, b, [dict(profile="samebank_altrow", ncmd=cyc + 40, gap=cyc - 3, partial=0.0),
                                                      dict(profile="pingpong", ncmd=(cyc + 40) // 2, gap=2 * cyc - 7, seed=5)],
